@@ -22,7 +22,6 @@ import (
 	"math/big"
 	"os"
 	"runtime/debug"
-	"runtime/pprof"
 	"sort"
 	"strings"
 	"time"
@@ -98,12 +97,6 @@ func main() {
 	if *replay != "" {
 		n = 1
 	}
-	if f := os.Getenv("C15_CPUPROFILE"); f != "" && report.IsWorker() {
-		fh, err := os.Create(f)
-		must(err)
-		must(pprof.StartCPUProfile(fh))
-		go func() { time.Sleep(40 * time.Second); pprof.StopCPUProfile(); fh.Close(); os.Exit(0) }()
-	}
 	report.Main("C15", "exploration", n, func(r *report.Run, shard, nshards int) { run(r, shard, nshards, *replay) })
 }
 
@@ -130,7 +123,7 @@ func run(r *report.Run, shard, nshards int, replayFile string) {
 	e.deadline = r.Deadline(170*time.Second, 27*time.Minute)
 
 	r.Rule = "tax: full product amount x rate string x {non-exempt, exempt} x funding {a+tax-1, a+tax, a+tax+5}; each case = signed MsgSendToRemote on a fork, then (fork 1) MsgCancelSendToRemote, (fork 2) batch built by skyway.EndBlocker at h%50==0 + 3 MsgBatchSendToRemoteClaim + tally; a case is distinct by (amount, rate, exempt, funding, outcome). " +
-		"limit: every sequence (no merging of states) of <= D sends over kinds {U1 x 5 amounts, U2, exempt EX, POOR (no funds), unmapped denom} x 6 heights {h0,h0+1,h0+W-1,h0+W,h0+W+1,h0+2W} non-decreasing, per (period, limit); a case is distinct by (period, limit, kind, amount, height index, reference window state, outcome)"
+		"limit: per scenario (coverage.limit_scenarios: period, limit, kinds, D) every sequence (no merging of states) of <= D signed sends, each step = kind {limited U1/U2, exempt EX, POOR = limited without funds, UNM = unmapped denom, FREE = token without limit}(amount) x height in {h0,h0+1,h0+W-1,h0+W,h0+W+1,h0+2W}, heights non-decreasing; a case is distinct by (period, limit, kind, amount, height index, reference window state, outcome)"
 	r.Assumptions = []string{
 		"'any one limit window' is read as the code's tumbling window: a window opens at the first ACCEPTED non-exempt transfer after the previous window lapsed (height - start >= BlockLimit(period)) and lasts BlockLimit blocks; a sliding-window reading is NOT checked (sequences in which more than the limit is accepted within fewer than BlockLimit blocks across a window boundary are counted in coverage.sliding_window_exceeding_sequences, informational)",
 		"the limit counts transfer amounts (without tax); the limit scenarios configure no tax; cancelled transfers do not give allowance back (not required by the property)",
@@ -816,7 +809,11 @@ func (e *env) dfs(c *limCfg, ctx sdk.Context, m *model, path []step, hmin int, d
 			cc := world.Fork(ctx)
 			mm := m.clone()
 			p := append(append([]step{}, path...), s)
+			saved := [6]float64{e.accepted, e.rejectedLimit, e.failedLater, e.exemptSends, e.keeperSeam, e.slidingExceed}
 			outcome, changed, f := e.stepLimit(c, &cc, mm, s, dS, dB)
+			if depth == 0 && e.shard != 0 { // first steps are executed by every shard, counted by shard 0
+				e.accepted, e.rejectedLimit, e.failedLater, e.exemptSends, e.keeperSeam, e.slidingExceed = saved[0], saved[1], saved[2], saved[3], saved[4], saved[5]
+			}
 			if depth > 0 || e.shard == 0 {
 				rel := "none"
 				if m.open {
@@ -897,6 +894,17 @@ func (e *env) partLimit() {
 			e.newCfg("DAILY", pow2(128), 4, 0),
 			e.newCfg("YEARLY", pow2(200), 3, 1),
 		}
+	}
+	if e.shard == 0 {
+		var desc []string
+		for _, c := range cfgs {
+			var ks []string
+			for _, k := range c.kinds {
+				ks = append(ks, k.Kind+"("+k.Amount+")")
+			}
+			desc = append(desc, fmt.Sprintf("period=%s W=%d limit=%s sequences<=%d kinds=[%s]", c.Period, c.wlen, c.Limit, c.depth, strings.Join(ks, " ")))
+		}
+		e.r.Extra["limit_scenarios"] = desc
 	}
 	for _, c := range cfgs {
 		if e.late() {
